@@ -533,7 +533,7 @@ def focus_list(ordered):
 
 def gen_cases(seed, tier):
     rng = Rnd(seed, 18)
-    n = 4000 if tier == 'quick' else 60000
+    n = 4000 if tier == 'quick' else 180000
     max_ops = 40 if tier == 'quick' else 80
     foc = {False: focus_list(False), True: focus_list(True)}
     cases = []
